@@ -181,19 +181,44 @@ theorem const_get (s : List Nat) (z : α) (i : List Nat) (h : i ∈ cells s) : (
   have hlt := ravel_lt s i (mem_cells_inRange s i h)
   simp [NdArr.get, NdArr.const, Array.getD, hlt]
 
-/-- **`Factor.active`**: the generated reading (transpose, `np.zeros`, advanced-index store) is the hand model's indicator
-table — for a NON-EMPTY list of cells, each with one coordinate per attribute of a non-empty domain -/
-theorem active_eq (negInf : α) (d : Dom) (cs : List (List Nat)) (hr : 0 < d.length) (hne : cs ≠ [])
+theorem const_eq_ofFn (s : List Nat) (z : α) : NdArr.const s z = NdArr.ofFn s (fun _ => z) := by
+  simp [NdArr.const, NdArr.ofFn, List.map_const', length_cells]
+
+/-- an EMPTY list of cells: the guard `len(structural_zeros) > 0` skips the store, nothing is declared impossible -/
+theorem active_nil (negInf : α) (d : Dom) : EstG.active negInf d [] = Factor.active negInf d [] := by
+  simp [EstG.active, Factor.active, const_eq_ofFn]
+
+/-- **`Factor.active`**: the generated reading (`np.zeros`; under `len(cells) > 0`: transpose, advanced-index store) is the
+hand model's indicator table — for every list of cells, each with one coordinate per attribute of the domain -/
+theorem active_eq (negInf : α) (d : Dom) (cs : List (List Nat))
     (hlen : ∀ c ∈ cs, c.length = d.length) : EstG.active negInf d cs = Factor.active negInf d cs := by
-  unfold EstG.active Factor.active fancyStore
-  simp only [idxCells_npArrayT cs d.length hr hne hlen, npArrayT_isEmpty cs d.length hr hne hlen, Bool.false_or]
-  congr 1
-  apply ofFn_congr
-  intro i hi
-  by_cases hc : i ∈ cs
-  · simp [hc]
-  · simp only [List.contains_iff_mem, hc, if_false]
-    exact const_get _ _ _ hi
+  cases cs with
+  | nil => exact active_nil negInf d
+  | cons c0 t =>
+    have hne : c0 :: t ≠ [] := List.cons_ne_nil _ _
+    have hpos : decide ((c0 :: t).length > 0) = true := by simp
+    unfold EstG.active Factor.active fancyStore
+    simp only [hpos, if_true]
+    congr 1
+    by_cases hr : 0 < d.length
+    · simp only [idxCells_npArrayT (c0 :: t) d.length hr hne hlen, npArrayT_isEmpty (c0 :: t) d.length hr hne hlen,
+        Bool.false_or]
+      apply ofFn_congr
+      intro i hi
+      by_cases hc : i ∈ c0 :: t
+      · simp [hc]
+      · simp only [List.contains_iff_mem, hc, if_false]
+        exact const_get _ _ _ hi
+    · -- a domain without attributes: one cell `()`, which every (necessarily empty) declared cell is
+      have hd : d = [] := List.eq_nil_of_length_eq_zero (by omega)
+      subst hd
+      have hc0 : c0 = [] := List.eq_nil_of_length_eq_zero (by simpa using hlen c0 (by simp))
+      subst hc0
+      apply ofFn_congr
+      intro i hi
+      have hi' : i = [] := by simpa [NdArr.const, Dom.shape, cells] using hi
+      subst hi'
+      simp [npArrayT]
 
 /-! ### `__init__`: the structural-zero vector -/
 
